@@ -355,6 +355,22 @@ def probe_class_facts(vinegar):
         by_new = log == [("new", (), {})]
         if not by_new and not any(ev[0] == "init" for ev in log):
             raise Inexpressible("load: instantiation is neither cls.__new__(cls) nor a constructor call: %r" % (log,))
+        # the same on canary subclasses of several built-in bases, with and without arguments / attributes in the record
+        for k, base in enumerate((Exception, BaseException, OSError, KeyError, UnicodeDecodeError, SyntaxError, StopIteration)):
+            calls = []
+            C = type("Canary%d" % k, (base,), {
+                "__new__": (lambda cls, *a, _b=base, _c=calls, **kw: (_c.append(("new", a, kw)), _b.__new__(cls))[1]),
+                "__init__": (lambda self, *a, _c=calls, **kw: _c.append(("init", a, kw)))})
+            C.__module__ = name
+            setattr(mod, C.__name__, C)
+            for rec_args, rec_attrs in (((), ()), ((1, "two"), (("x", 3),))):
+                del calls[:]
+                got = load(((name, C.__name__), rec_args, rec_attrs, "TB"))
+                if not isinstance(got, C):
+                    raise Inexpressible("load: canary class %s(%s) is not rebuilt" % (C.__name__, base.__name__))
+                if (calls == [("new", (), {})]) != by_new:
+                    raise Inexpressible("load: instantiation differs between classes: %s(%s) saw %r"
+                                        % (C.__name__, base.__name__, calls))
         T = type(exc)
         keeps = T is not E and issubclass(T, E) and T.__mro__[1] is E and T.__name__ == E.__name__ and T.__module__ == E.__module__
         start, end = vinegar.REMOTE_LINE_START, vinegar.REMOTE_LINE_END
